@@ -254,6 +254,8 @@ func runC20(c *run.Ctx) {
 		Seqs(c, fragCore, 4, 4, func(in []byte, _ []int) { eval(named, in) })
 		Seqs(c, fragCore, 5, 5, func(in []byte, _ []int) { eval(named[:min(4, len(named))], in) })
 	}
+	SeqsS(c, "exotic", fragCoreExotic(), 0, 2, func(in []byte, _ []int) { eval(allSpecs, in) })
+	SeqsS(c, "exotic", fragCoreExotic(), 3, 3, func(in []byte, _ []int) { eval(named[:min(8, len(named))], in) })
 	// URL layer
 	urlSpecs := pick(named, "ugc", "links", "link-relfalse-targetfalse", "link-reltrue-targettrue", "cmd-ugc")
 	ku := 3
